@@ -690,7 +690,7 @@ async def feed_bridge(n_ports, events, raising=(), show=None, sentinel=None, ser
             await bridge.stop(); tx.close(); await asyncio.sleep(0)
             loop.set_exception_handler(old)
         nwarn = len([x for x in w if "unknown" in str(x.message)])
-        feed_bridge.other_warnings = [str(x.message)[:120] for x in w if "unknown" not in str(x.message)]      # any other warning raised while the bridge ran
+        feed_bridge.other_warnings = [str(x.message)[:120] for x in w if "unknown" not in str(x.message) and not issubclass(x.category, ResourceWarning)]      # any other warning raised while the bridge ran
     return log, len(handler), nwarn, complete
 
 
